@@ -102,6 +102,25 @@ Section Cubic.
       rewrite Hsum, Hb. unfold G, g, g', cubic, cubic_prim, cubic_der. field.
   Qed.
 
+End Cubic.
+
+(* ---- Simpson on quartics: exact value = integral + an explicit error term --------- *)
+Definition quartic (a0 a1 a2 a3 a4 x : R) : R := a0 + a1 * x + a2 * x ^ 2 + a3 * x ^ 3 + a4 * x ^ 4.
+Definition quartic_prim (a0 a1 a2 a3 a4 x : R) : R :=
+  a0 * x + a1 * x ^ 2 / 2 + a2 * x ^ 3 / 3 + a3 * x ^ 4 / 4 + a4 * x ^ 5 / 5.
+
+(* error of the rule as implemented: 4/15 a4 h^5 per 1/3 panel pair, 9/10 a4 h^5 for the 3/8 panel *)
+Definition simpson_err (a4 h : R) (n : N) : R :=
+  if N.even n then RN (n / 2) * (4 / 15 * a4 * h ^ 5)
+  else RN ((n - 3) / 2) * (4 / 15 * a4 * h ^ 5) + 9 / 10 * a4 * h ^ 5.
+
+Section Quartic.
+  Variables a0 a1 a2 a3 a4 : R.
+  Let g := quartic a0 a1 a2 a3 a4.
+  Let G := quartic_prim a0 a1 a2 a3 a4.
+  Variable f : R -> res R.
+  Hypothesis Hf : forall x, f x = Ok (g x).
+
   (* ---- Simpson 1/3 ---------------------------------------------------------------- *)
   Lemma s13_body_step h xi sum :
     s13_body f h (xi, sum) =
@@ -110,13 +129,14 @@ Section Cubic.
     unfold s13_body, ntwo. cbn [nadd nsub nmul nofZ RNum]. rewrite !Hf. reflexivity.
   Qed.
 
-  Lemma simpson13_cubic h s segs : (1 <= segs / 2)%N ->
-    simpson13 f h s segs = Ok (G (s + RN (segs / 2) * (2 * h)) - G s).
+  Lemma simpson13_quartic h s segs : (1 <= segs / 2)%N ->
+    simpson13 f h s segs =
+    Ok (G (s + RN (segs / 2) * (2 * h)) - G s + RN (segs / 2) * (4 / 15 * a4 * h ^ 5)).
   Proof.
     intro Hm. unfold simpson13. rewrite Hf. cbn [bind].
     destruct (loopN_inv
       (fun i st => fst st = s + INR i * (2 * h) /\
-                   h / 3 * snd st = G (fst st) - G s + h / 3 * g (fst st))
+                   h / 3 * snd st = G (fst st) - G s + h / 3 * g (fst st) + INR i * (4 / 15 * a4 * h ^ 5))
       (N.pred (segs / 2)) (s13_body f h) (s, g s)) as ([xi sum] & E & Hxi & Hsum).
     - cbn [fst snd INR]. split; ring.
     - intros i [xi sum] _ [Hx Hs]. cbn [fst snd] in *.
@@ -124,31 +144,32 @@ Section Cubic.
       + rewrite S_INR, Hx. ring.
       + replace (h / 3 * (sum + (4 * g (xi + 2 * h - h) + 2 * g (xi + 2 * h))))
           with (h / 3 * sum + h / 3 * (4 * g (xi + 2 * h - h) + 2 * g (xi + 2 * h))) by field.
-        rewrite Hs. unfold G, g, cubic, cubic_prim. field.
+        rewrite Hs, S_INR. unfold G, g, quartic, quartic_prim. field.
     - rewrite E. cbn [bind]. cbv iota beta. unfold ntwo. cbn [nadd nsub nmul ndiv nofZ RNum].
       rewrite !Hf. cbn [bind fst snd] in *.
-      rewrite INR_N_pred in Hxi by exact Hm. f_equal.
+      rewrite INR_N_pred in Hxi, Hsum by exact Hm. f_equal.
       replace (s + RN (segs / 2) * (2 * h)) with (xi + 2 * h) by (rewrite Hxi; ring).
       replace (h * (sum + (4 * g (xi + 2 * h - h) + g (xi + 2 * h))) / 3)
         with (h / 3 * sum + h / 3 * (4 * g (xi + 2 * h - h) + g (xi + 2 * h))) by field.
-      rewrite Hsum. unfold G, g, cubic, cubic_prim. field.
+      rewrite Hsum. unfold G, g, quartic, quartic_prim. field.
   Qed.
 
   (* ---- Simpson 3/8 ---------------------------------------------------------------- *)
-  Lemma simpson38_cubic h e :
-    simpson38 f h (e - h * 3) (e - h * 2) (e - h * 1) e = Ok (G e - G (e - h * 3)).
+  Lemma simpson38_quartic h e :
+    simpson38 f h (e - h * 3) (e - h * 2) (e - h * 1) e =
+    Ok (G e - G (e - h * 3) + 9 / 10 * a4 * h ^ 5).
   Proof.
     unfold simpson38. rewrite !Hf. cbn [bind nadd nmul ndiv nofZ RNum]. f_equal.
-    unfold G, g, cubic, cubic_prim. field.
+    unfold G, g, quartic, quartic_prim. field.
   Qed.
 
   (* ---- definite_integral ------------------------------------------------------------ *)
-  Lemma definite_integral_cubic a b n : (2 <= n)%N ->
-    definite_integral f a b n = Ok (G b - G a).
+  Lemma definite_integral_quartic a b n : (2 <= n)%N ->
+    definite_integral f a b n = Ok (G b - G a + simpson_err a4 ((b - a) / RN n) n).
   Proof.
     intro Hn.
     assert (Hpos : 0 < RN n) by (apply RN_pos; lia).
-    unfold definite_integral.
+    unfold definite_integral, simpson_err.
     destruct (n =? 1)%N eqn:E1; [apply N.eqb_eq in E1; lia|].
     rewrite nofN_R. cbn [ndiv nsub nmul nofZ RNum].
     set (h := (b - a) / RN n).
@@ -162,14 +183,14 @@ Section Cubic.
       replace (1 <? n)%N with true by (symmetry; apply N.ltb_lt; lia).
       cbv iota beta.
       assert (Hside : (1 <= n / 2)%N) by (rewrite Hdiv; lia).
-      rewrite (simpson13_cubic h a n Hside).
+      rewrite (simpson13_quartic h a n Hside).
       cbn [bind nadd n0 RNum]. f_equal.
       rewrite Hdiv. replace (a + RN m * (2 * h)) with b; [ring|].
       rewrite Hh, Hm, RN_double. ring.
     - (* odd: 3/8 rule on the last three segments, 1/3 rule on the rest *)
       assert (Hodd : N.odd n = true) by (rewrite <- N.negb_even, Ev; reflexivity).
       apply N.odd_spec in Hodd. destruct Hodd as [m Hm].
-      rewrite simpson38_cubic. cbn [bind].
+      rewrite simpson38_quartic. cbn [bind].
       replace (n <? 3)%N with false by (symmetry; apply N.ltb_ge; lia).
       cbv iota beta. cbn [bind]. cbv iota beta. cbn [nadd n0 RNum].
       assert (Hm1 : (1 <= m)%N) by lia.
@@ -182,18 +203,90 @@ Section Cubic.
       destruct (1 <? n - 3)%N eqn:E3.
       + apply N.ltb_lt in E3.
         assert (Hside : (1 <= (n - 3) / 2)%N) by (rewrite Hdiv; lia).
-        rewrite (simpson13_cubic h a (n - 3)%N Hside).
+        rewrite (simpson13_quartic h a (n - 3)%N Hside).
         cbn [bind nadd RNum]. f_equal.
         rewrite Hdiv.
         replace (a + RN (m - 1) * (2 * h)) with (b - h * 3); [ring|].
         rewrite Hh, HRn. ring.
       + (* n = 3 *)
         apply N.ltb_ge in E3. f_equal.
-        assert (m = 1%N) by lia. subst m.
-        replace (b - h * 3) with a; [ring|].
+        assert (m = 1%N) by lia. subst m. rewrite Hdiv.
+        replace (b - h * 3) with a; [change (RN (1 - 1)) with 0; ring|].
         rewrite Hh, HRn. change (RN (1 - 1)) with 0. ring.
   Qed.
-End Cubic.
+
+  (* the textbook bound with constant 1/80 holds for the mixed rule (fourth derivative = 24 a4) *)
+  Lemma simpson_err_bound a b n : (2 <= n)%N ->
+    Rabs (simpson_err a4 ((b - a) / RN n) n) <=
+    Rabs (b - a) * ((b - a) / RN n) ^ 4 * Rabs (24 * a4) / 80.
+  Proof.
+    intro Hn.
+    assert (Hpos : 0 < RN n) by (apply RN_pos; lia).
+    set (h := (b - a) / RN n).
+    assert (Hh : b - a = RN n * h) by (subst h; field; lra).
+    clearbody h. rewrite Hh.
+    set (u := Rabs (a4 * h ^ 5)).
+    assert (Hu : 0 <= u) by apply Rabs_pos.
+    assert (Hrhs : Rabs (RN n * h) * h ^ 4 * Rabs (24 * a4) / 80 = RN n * (3 / 10) * u).
+    { subst u. rewrite !Rabs_mult. rewrite (Rabs_pos_eq (RN n)) by lra.
+      rewrite (Rabs_pos_eq 24) by lra.
+      replace (h ^ 5) with (h * h ^ 4) by ring. rewrite Rabs_mult.
+      rewrite (Rabs_pos_eq (h ^ 4)).
+      - field.
+      - replace (h ^ 4) with ((h ^ 2) ^ 2) by ring. apply pow2_ge_0. }
+    rewrite Hrhs. unfold simpson_err.
+    destruct (N.even n) eqn:Ev.
+    - apply N.even_spec in Ev. destruct Ev as [m Hm].
+      assert (Hdiv : (n / 2 = m)%N) by (subst n; rewrite N.mul_comm; apply N.div_mul; lia).
+      rewrite Hdiv, Hm, RN_double.
+      assert (Hm0 : 0 <= RN m) by (unfold RN; apply IZR_le; lia).
+      replace (RN m * (4 / 15 * a4 * h ^ 5)) with (RN m * (4 / 15) * (a4 * h ^ 5)) by ring.
+      rewrite Rabs_mult, (Rabs_pos_eq (RN m * (4 / 15))) by nra.
+      fold u. nra.
+    - assert (Hodd : N.odd n = true) by (rewrite <- N.negb_even, Ev; reflexivity).
+      apply N.odd_spec in Hodd. destruct Hodd as [m Hm].
+      assert (Hdiv : ((n - 3) / 2 = m - 1)%N).
+      { replace (n - 3)%N with (2 * (m - 1))%N by lia. rewrite N.mul_comm. apply N.div_mul. lia. }
+      assert (HRn : RN n = 2 * RN (m - 1) + 3).
+      { unfold RN. replace (Z.of_N n) with (2 * Z.of_N (m - 1) + 3)%Z by lia.
+        rewrite plus_IZR, mult_IZR. reflexivity. }
+      rewrite Hdiv, HRn.
+      assert (Hm0 : 0 <= RN (m - 1)) by (unfold RN; apply IZR_le; lia).
+      replace (RN (m - 1) * (4 / 15 * a4 * h ^ 5) + 9 / 10 * a4 * h ^ 5)
+        with ((RN (m - 1) * (4 / 15) + 9 / 10) * (a4 * h ^ 5)) by ring.
+      rewrite Rabs_mult, (Rabs_pos_eq (RN (m - 1) * (4 / 15) + 9 / 10)) by nra.
+      fold u. nra.
+  Qed.
+
+  (* ... and is attained for n = 3: the constant 1/80 cannot be improved *)
+  Lemma simpson_err_tight_n3 a b :
+    Rabs (simpson_err a4 ((b - a) / RN 3) 3) =
+    Rabs (b - a) * ((b - a) / RN 3) ^ 4 * Rabs (24 * a4) / 80.
+  Proof.
+    change (RN 3) with 3. set (h := (b - a) / 3).
+    assert (Hh : b - a = 3 * h) by (subst h; field).
+    clearbody h. rewrite Hh. unfold simpson_err. cbn [N.even].
+    change (RN ((3 - 3) / 2)) with 0.
+    replace (0 * (4 / 15 * a4 * h ^ 5) + 9 / 10 * a4 * h ^ 5) with (9 / 10 * (a4 * (h * h ^ 4))) by ring.
+    rewrite !Rabs_mult.
+    assert (H4 : 0 <= h ^ 4) by (replace (h ^ 4) with ((h ^ 2) ^ 2) by ring; apply pow2_ge_0).
+    rewrite (Rabs_pos_eq (h ^ 4) H4), (Rabs_pos_eq 3), (Rabs_pos_eq 24), (Rabs_pos_eq (9 / 10)) by lra.
+    field.
+  Qed.
+End Quartic.
+
+Lemma definite_integral_cubic a0 a1 a2 a3 (f : R -> res R) :
+  (forall x, f x = Ok (cubic a0 a1 a2 a3 x)) ->
+  forall a b n, (2 <= n)%N ->
+  definite_integral f a b n = Ok (cubic_prim a0 a1 a2 a3 b - cubic_prim a0 a1 a2 a3 a).
+Proof.
+  intros Hf a b n Hn.
+  rewrite (definite_integral_quartic a0 a1 a2 a3 0 f).
+  - assert (Hpos : 0 < RN n) by (apply RN_pos; lia).
+    f_equal. unfold simpson_err, quartic_prim, cubic_prim. destruct (N.even n); field; lra.
+  - intro x. rewrite Hf. f_equal. unfold cubic, quartic. ring.
+  - exact Hn.
+Qed.
 
 (* ---- SimplePolynomial with at most four coefficients ---------------------------- *)
 Definition coef (cs : list R) (k : nat) : R := nth k cs 0.
@@ -275,4 +368,67 @@ Proof.
   unfold trapezoid. cbn [bind]. change (N.pred 1) with 0%N.
   unfold loopN. cbn [N.iter bind snd]. unfold ntwo. rewrite nofN_R. change (RN 1) with 1.
   cbn [ndiv nmul nadd nsub nofZ RNum]. f_equal. field.
+Qed.
+
+(* ---- C05: the error clause, proved for degree 4 (and attained for n = 3) --------- *)
+Lemma c05_simpson_error_quartic : forall (f : R -> res R) (a0 a1 a2 a3 a4 : R),
+  (forall x, f x = Ok (a0 + a1 * x + a2 * x ^ 2 + a3 * x ^ 3 + a4 * x ^ 4)) ->
+  forall (a b : R) (n : N), (2 <= n)%N ->
+  exists v, definite_integral f a b n = Ok v /\
+    Rabs (v - (quartic_prim a0 a1 a2 a3 a4 b - quartic_prim a0 a1 a2 a3 a4 a)) <=
+    Rabs (b - a) * ((b - a) / IZR (Z.of_N n)) ^ 4 * Rabs (24 * a4) / 80.
+Proof.
+  intros f a0 a1 a2 a3 a4 Hf a b n Hn.
+  eexists. split; [apply (definite_integral_quartic a0 a1 a2 a3 a4 f Hf a b n Hn)|].
+  match goal with |- Rabs ?e <= _ => replace e with (simpson_err a4 ((b - a) / RN n) n) by ring end.
+  apply simpson_err_bound. exact Hn.
+Qed.
+
+Lemma c05_simpson_error_tight_n3 : forall (f : R -> res R) (a0 a1 a2 a3 a4 : R),
+  (forall x, f x = Ok (a0 + a1 * x + a2 * x ^ 2 + a3 * x ^ 3 + a4 * x ^ 4)) ->
+  forall (a b : R),
+  exists v, definite_integral f a b 3 = Ok v /\
+    Rabs (v - (quartic_prim a0 a1 a2 a3 a4 b - quartic_prim a0 a1 a2 a3 a4 a)) =
+    Rabs (b - a) * ((b - a) / 3) ^ 4 * Rabs (24 * a4) / 80.
+Proof.
+  intros f a0 a1 a2 a3 a4 Hf a b.
+  eexists. split; [apply (definite_integral_quartic a0 a1 a2 a3 a4 f Hf a b 3); lia|].
+  match goal with |- Rabs ?e = _ => replace e with (simpson_err a4 ((b - a) / RN 3) 3) by ring end.
+  apply simpson_err_tight_n3.
+Qed.
+
+(* ---- IntermediatePolynomial: c3 v^3 + c2 v^2 + c1 v + c0 as the parser builds it ---- *)
+Definition icubic (v : name) (c0 c1 c2 c3 : R) : ipoly R :=
+  {| i_terms := [ {| t_coef := c3; t_vars := [(v, 3)] |};
+                  {| t_coef := c2; t_vars := [(v, 2)] |};
+                  {| t_coef := c1; t_vars := [(v, 1)] |};
+                  {| t_coef := c0; t_vars := [] |} ];
+     i_vars := [v] |}.
+
+Lemma name_eqb_refl (v : name) : name_eqb v v = true.
+Proof. induction v as [|c v IH]; [reflexivity|]. cbn [name_eqb]. rewrite N.eqb_refl, IH. reflexivity. Qed.
+
+Lemma Int_part_IZR z : Int_part (IZR z) = z.
+Proof.
+  unfold Int_part. rewrite <- (tech_up (IZR z) (z + 1)).
+  - lia.
+  - rewrite plus_IZR. lra.
+  - rewrite plus_IZR. lra.
+Qed.
+
+Lemma Rpowf_nat (x : R) (k : positive) : Rpowf x (IZR (Zpos k)) = x ^ Pos.to_nat k.
+Proof.
+  unfold Rpowf. rewrite Int_part_IZR.
+  destruct (Req_EM_T (IZR (Z.pos k)) (IZR (Z.pos k))) as [_|N]; [|exfalso; apply N; reflexivity].
+  reflexivity.
+Qed.
+
+Lemma i_eval_cubic v c0 c1 c2 c3 x :
+  i_eval_univariate (icubic v c0 c1 c2 c3) x = Ok (c0 + c1 * x + c2 * x ^ 2 + c3 * x ^ 3).
+Proof.
+  unfold i_eval_univariate, icubic, eval_inter. cbn [i_vars i_terms].
+  cbn [eval_inter_from eval_term_vars t_coef t_vars lookup]. rewrite name_eqb_refl.
+  cbn [npowf nmul nadd n0 RNum]. rewrite !Rpowf_nat.
+  change (Pos.to_nat 3) with 3%nat. change (Pos.to_nat 2) with 2%nat. change (Pos.to_nat 1) with 1%nat.
+  f_equal. ring.
 Qed.
